@@ -6,6 +6,7 @@
 package gsim
 
 import (
+	"sync"
 	"encoding/json"
 	"fmt"
 	"net"
@@ -191,7 +192,10 @@ type recWatcher struct {
 }
 
 func (w *recWatcher) rec(t, n, k, v string) {
+	// (the code under test calls its watcher under the state mutex; a changed tree may not)
+	w.c.evMu.Lock()
 	w.c.events = append(w.c.events, Event{O: w.node, T: t, N: n, K: k, V: v})
+	w.c.evMu.Unlock()
 }
 func (w *recWatcher) OnJoin(n string) {
 	w.rec("join", n, "", "")
@@ -267,6 +271,7 @@ type Cluster struct {
 
 	outbox []rawPkt
 	events []Event
+	evMu   sync.Mutex
 
 	Slots map[int]*Msg
 
@@ -1013,6 +1018,59 @@ func (c *Cluster) Expire(o string, k int) *Step {
 	c.Finish(s, false)
 	for _, e := range s.Evts {
 		s.Ord = append(s.Ord, e.N)
+	}
+	s.Kx = len(s.Ord)
+	s.Cmd = rawCmd(s)
+	return s
+}
+
+// RaceExpiry: o holds a view of n whose expiry is armed (n is considered unreachable) although n is alive. The
+// expiry sweep of o (RemoveExpiredAt) runs in one goroutine while another keeps applying a delta with n's own
+// state, as incoming gossip would: whichever way the two interleave, afterwards the gossip state and the syncer
+// agree about n (known and tracked, or forgotten by both). rounds sweeps are raced; the step reports the last.
+func (c *Cluster) RaceExpiry(o, n string) *Step {
+	x, y := c.live(o), c.live(n)
+	if x == nil || y == nil || o == n {
+		return nil
+	}
+	var exp time.Time
+	for _, m := range x.G.Nodes() {
+		if m.ID == n {
+			exp = m.Expiry
+		}
+	}
+	if exp.IsZero() {
+		return nil
+	}
+	own := y.G.LocalNode()
+	d := []gossip.VerifDeltaEntry{{ID: n, Addr: c.addrOf[n], Entries: own.Entries}}
+	stop, done := make(chan struct{}), make(chan struct{})
+	go func() {
+		defer close(done)
+		for {
+			select {
+			case <-stop:
+				return
+			default:
+			}
+			x.G.ApplyDelta(d)
+		}
+	}()
+	time.Sleep(200 * time.Microsecond)
+	x.G.RemoveExpiredAt(exp.Add(time.Nanosecond))
+	time.Sleep(200 * time.Microsecond)
+	close(stop)
+	<-done
+	_, removed := x.Det.Drain()
+	for _, id := range removed {
+		c.suspSet[o][id] = false
+	}
+	s := &Step{Op: "RaceExpiry", A: o, B: n}
+	c.Finish(s, false)
+	for _, e := range s.Evts {
+		if e.T == "expired" {
+			s.Ord = append(s.Ord, e.N)
+		}
 	}
 	s.Kx = len(s.Ord)
 	s.Cmd = rawCmd(s)
